@@ -5,6 +5,7 @@ import (
 	"strings"
 	"time"
 
+	"verifh/fs3"
 	"verifh/walk"
 )
 
@@ -231,6 +232,27 @@ func c15Attrs(c *Case) {
 		default:
 			key++
 			kind := r.Intn(3)
+			if key > 0 && r.Intn(4) == 0 {
+				// a statement that fails when its transaction starts (the table is re-opened, so BEGIN has to
+				// read the tree, and that read fails): the connection's attributes stay as they are
+				conn.Exec("drop table " + t)
+				if err := conn.Create(spec); err == nil {
+					st.Client("a").AddFault(fs3.Fault{Op: fs3.OpGet, Action: "error"})
+					err := conn.Exec(fmt.Sprintf("update %s set b='never' where k=%d", t, key))
+					st.Client("a").ClearFaults()
+					trace = append(trace, fmt.Sprintf("re-open; update with a failing GET -> %v", err))
+					if err != nil && fs3.IsInjected(err) {
+						c.Count("statements_failing_at_begin", 1)
+						wantConn := "NULL|NULL"
+						if cur != 0 {
+							wantConn = "NULL|t:" + tstr(cur)
+						}
+						if got, ok := readConn(conn); ok && got != wantConn {
+							fail("readback-after-failed-statement", "s3db_conn shows "+got+" after a statement that failed on storage; before it showed "+wantConn)
+						}
+					}
+				}
+			}
 			if r.Intn(4) == 0 {
 				// something rolled back first - a transaction, or a statement refused for its key -: the
 				// time it ran at is not the time of what follows
